@@ -98,7 +98,9 @@ class Runtime(object):
         self.pool = None
         self.futures = []
         if case.get("pool"):
-            self.pool = TP.ThreadPool(case["pool"], min_threads=0, timeout=0.05)
+            # min_threads = max_threads: workers never retire while the case runs (worker retirement races are
+            # the pool properties' business, C09-C11); stop() wakes them with sentinels whatever the timeout
+            self.pool = TP.ThreadPool(case["pool"], min_threads=case["pool"], timeout=0.5)
             if case.get("pool_started", True):
                 self.pool.start()
             self.disp.set_notification_pool(_PoolRecorder(self))
